@@ -38,8 +38,13 @@ def windows(tier):
         bases += [("no-homopolymer-2", 9), ("no-repeat-3", 7), ("complete-1", 12)]
     else:
         bases += [("complete-1", 8)]
+    bases += [("empty-1", 8 if tier == "quick" else 12), ("empty-2", 7 if tier == "quick" else 10)]      # sparse pre-states (all scores zero, single arcs)
     for name, nfree in bases:
-        k, rows = repair.graph_by_name(name)
+        if name.startswith("empty-"):
+            k = int(name[-1])
+            rows = [[-1] * 4 for _ in range(4 ** k)]
+        else:
+            k, rows = repair.graph_by_name(name)
         N = 4 ** k
         allarcs = [(v, j) for v in range(N) for j in range(4)]
         special = [(v, 0) for v in range(0, N, max(N // 4, 1))][:2]
